@@ -143,7 +143,7 @@ theorem fnReturn_len (resTy : Ty) (e : Expr) (rc : Bool) (s : St) :
       · rw [(push_fields _ _).2, h4, h3, h2]
 
 theorem den_bodyStmts (hg : GlobRel g rg) (hn : GNames g) (resTy : Ty) : ∀ (l : List BodyStmt) (rc : Bool),
-    BodyStmt.loopOKL l = true → ∀ s ss, DRel s ss → (bodyStmts g resTy l rc s).1.errors = s.errors →
+    BodyStmt.anaOKL l = true → ∀ s ss, DRel s ss → (bodyStmts g resTy l rc s).1.errors = s.errors →
       DRel (bodyStmts g resTy l rc s).1 (specBody false rg l ss) ∧ (bodyStmts g resTy l rc s).1.inner.length = s.inner.length
   | [], _ => by
     intro _ s ss hr _
@@ -155,28 +155,28 @@ theorem den_bodyStmts (hg : GlobRel g rg) (hn : GNames g) (resTy : Ty) : ∀ (l 
     dsimp only at he ⊢
     cases st with
     | letB b =>
-      unfold BodyStmt.loopOKL at hok
+      unfold BodyStmt.anaOKL at hok
       unfold specBody
       exact body_step rc false false hr (esteps_letBinding g b _).errors_ext (steps_bodyStmts g resTy tl rc _).errors_ext he
         (ctd_of_std (den_let hg hn b) (esteps_letBinding g b) _ _) (den_bodyStmts hg hn resTy tl rc hok _ _)
     | bind b =>
-      unfold BodyStmt.loopOKL at hok
+      unfold BodyStmt.anaOKL at hok
       unfold specBody
       exact body_step rc false false hr (esteps_binding g b _).errors_ext (steps_bodyStmts g resTy tl rc _).errors_ext he
         (ctd_of_std (den_bind hg hn b) (esteps_binding g b) _ _) (den_bodyStmts hg hn resTy tl rc hok _ _)
     | call c =>
-      unfold BodyStmt.loopOKL at hok
+      unfold BodyStmt.anaOKL at hok
       unfold specBody
       exact body_step rc false false hr (esteps_callStmt g c _).errors_ext (steps_bodyStmts g resTy tl rc _).errors_ext he
         (ctd_of_std (den_callS hg hn c) (esteps_callStmt g c) _ _) (den_bodyStmts hg hn resTy tl rc hok _ _)
     | ifS i =>
-      unfold BodyStmt.loopOKL at hok
+      unfold BodyStmt.anaOKL at hok
       simp only [Bool.and_eq_true] at hok
       unfold specBody
       exact body_step rc false false hr (steps_ifCondition g i none none _).errors_ext (steps_bodyStmts g resTy tl rc _).errors_ext he
         (den_ifCondition hg hn i none none hok.1 _ _) (den_bodyStmts hg hn resTy tl rc hok.2 _ _)
     | loop b =>
-      unfold BodyStmt.loopOKL at hok
+      unfold BodyStmt.anaOKL at hok
       simp only [Bool.and_eq_true] at hok
       unfold specBody
       exact body_step rc false false hr (steps_loopWrap _ (steps_loopBody g b) _).errors_ext
@@ -185,7 +185,7 @@ theorem den_bodyStmts (hg : GlobRel g rg) (hn : GNames g) (resTy : Ty) : ∀ (l 
           (fun lb le s ss => den_loopBody hg hn b lb le false false false hok.1 s ss) _ _)
         (den_bodyStmts hg hn resTy tl rc hok.2 _ _)
     | expr e =>
-      unfold BodyStmt.loopOKL at hok
+      unfold BodyStmt.anaOKL at hok
       unfold specBody
       dsimp only at he ⊢
       have x1 := (steps_fnReturn g resTy e rc (forbidden rc false false s)).errors_ext
@@ -197,7 +197,7 @@ theorem den_bodyStmts (hg : GlobRel g rg) (hn : GNames g) (resTy : Ty) : ∀ (l 
       exact body_step rc false false hr x1 (steps_bodyStmts g resTy tl r s1).errors_ext he
         (fun hr he => ⟨h1 hr he, l1⟩) (den_bodyStmts hg hn resTy tl r hok _ _)
     | ret e =>
-      unfold BodyStmt.loopOKL at hok
+      unfold BodyStmt.anaOKL at hok
       unfold specBody
       dsimp only at he ⊢
       have x1 := (steps_fnReturn g resTy e rc (forbidden rc false false s)).errors_ext
@@ -221,7 +221,7 @@ theorem drel_init : DRel St.init SpecSt.init := by
 
 /-- **T2** for one function: if its analysis reports no error, the abstract reading of the emitted
 root stack is the statement list the source denotes -/
-theorem T2_function (hg : GlobRel g rg) (hn : GNames g) (f : FnDecl) (hok : BodyStmt.loopOKL f.body = true)
+theorem T2_function (hg : GlobRel g rg) (hn : GNames g) (f : FnDecl) (hok : BodyStmt.anaOKL f.body = true)
     (he : (functionBody g f).errors = []) :
     abstractStack (functionBody g f).root.context = specStmts false rg f := by
   unfold functionBody at he ⊢
